@@ -113,7 +113,20 @@ End Run.
 (* ---------------------------------------------------------------- monitors
    A journal of what the implementation acknowledged, kept per file of the group:
    segs = records of the indexed files on disk (oldest first), hs = records of the head covered
-   by a successful sync, hu = records of the head acknowledged by Write but not yet synced. *)
+   by a successful sync, hu = records of the head acknowledged by Write but not yet synced.
+   hpart = Some k: the head holds a partial record that a restart left unrepaired (known
+   finding 9), behind its first k records (the later ones were appended behind it).
+
+   What the head holds after crash + restart is taken from the reader opened at the oldest file
+   when that reader came to a clean end (then it has seen the whole log).  When it stopped at a
+   corrupt place (a partial record that an earlier restart did not repair: the class of known
+   finding 9) it says nothing about the files behind that place: the head is then computed
+   from the journal and the crash offset (the acknowledged records that fit entirely into the
+   bytes kept, the EndHeightMessage{0} records OnStart wrote, the cut repairWalFile makes at a
+   partial record).  Taking the reader's truncated answer there would drop from the journal
+   records that were written, acknowledged and are still on disk, and a later reader that gets
+   past the corrupt place (its file pruned by checkTotalSizeLimit, or opened at a later index)
+   would be accused of returning records that were never written. *)
 Fixpoint is_prefix (a b : list bytes) : bool :=
   match a, b with
   | [], _ => true
@@ -133,6 +146,7 @@ Record mon := {
   m_segs : list (list bytes);
   m_hs : list bytes;
   m_hu : list bytes;
+  m_hpart : option nat;
   m_flipped : bool;
   m_tainted : bool;
   m_prev : snap;
@@ -153,6 +167,12 @@ Fixpoint prefix_sums (acc : Z) (l : list bytes) : list Z :=
 Definition torn (keep : Z) (hu : list bytes) : bool :=
   let ps := prefix_sums 0 hu in
   negb (existsb (Z.eqb (Z.max 0 keep)) ps) && (Z.max 0 keep <? last ps 0).
+(* the unsynced records whose frames lie entirely within the [keep] bytes that survive *)
+Fixpoint kept_of (keep : Z) (hu : list bytes) : list bytes :=
+  match hu with
+  | [] => []
+  | d :: r => if frame_size d <=? keep then d :: kept_of (keep - frame_size d) r else []
+  end.
 
 (* markers after the last occurrence of h must not lie in (0, h): the early-exit shortcut of
    SearchForEndHeight is exact for logs whose non-zero markers increase *)
@@ -200,14 +220,21 @@ Definition zl_eqb := list_eqb Z.eqb.
 Definition nlen {A} (l : list A) : Z := Z.of_nat (List.length l).
 
 Definition add_verd (m : mon) (v : list verdict) (sn : snap) : mon :=
-  {| m_segs := m_segs m; m_hs := m_hs m; m_hu := m_hu m; m_flipped := m_flipped m;
+  {| m_segs := m_segs m; m_hs := m_hs m; m_hu := m_hu m; m_hpart := m_hpart m;
+     m_flipped := m_flipped m;
      m_tainted := m_tainted m; m_prev := sn; m_verd := m_verd m ++ v |}.
 Definition set_j (m : mon) (segs : list (list bytes)) (hs hu : list bytes) : mon :=
-  {| m_segs := segs; m_hs := hs; m_hu := hu; m_flipped := m_flipped m;
+  {| m_segs := segs; m_hs := hs; m_hu := hu; m_hpart := m_hpart m; m_flipped := m_flipped m;
      m_tainted := m_tainted m; m_prev := m_prev m; m_verd := m_verd m |}.
 Definition set_flags (m : mon) (fl ta : bool) : mon :=
-  {| m_segs := m_segs m; m_hs := m_hs m; m_hu := m_hu m; m_flipped := fl;
+  {| m_segs := m_segs m; m_hs := m_hs m; m_hu := m_hu m; m_hpart := m_hpart m; m_flipped := fl;
      m_tainted := ta; m_prev := m_prev m; m_verd := m_verd m |}.
+Definition set_hpart (m : mon) (hp : option nat) : mon :=
+  {| m_segs := m_segs m; m_hs := m_hs m; m_hu := m_hu m; m_hpart := hp; m_flipped := m_flipped m;
+     m_tainted := m_tainted m; m_prev := m_prev m; m_verd := m_verd m |}.
+(* the head was moved away whole (with its partial record, if any): the new head is empty *)
+Definition rotated (m : mon) : mon :=
+  set_hpart (set_j m (m_segs m ++ [m_hs m ++ m_hu m]) [] []) None.
 
 (* clause 4 for an operation that must not remove anything: the indexed files are the previous
    ones, possibly preceded by re-created empty files (readers), possibly followed by the
@@ -233,11 +260,10 @@ Definition mon_step (m : mon) (o : xop) (a : xans) (sn : snap) : mon :=
     let m1 := if ok then set_j m (m_segs m) (m_hs m ++ m_hu m) [] else m in
     add_verd m1 [viol (files_kept prev sn false) 4] sn
   | XRotate, _ =>
-    add_verd (set_j m (m_segs m ++ [m_hs m ++ m_hu m]) [] [])
-             [viol (files_kept prev sn true) 4] sn
+    add_verd (rotated m) [viol (files_kept prev sn true) 4] sn
   | XCheckHead, _ =>
     let rot := max_of sn =? max_of prev + 1 in
-    let m1 := if rot then set_j m (m_segs m ++ [m_hs m ++ m_hu m]) [] [] else m in
+    let m1 := if rot then rotated m else m in
     add_verd m1 [viol (files_kept prev sn rot) 4] sn
   | XCheckTotal, _ =>
     (* only whole oldest files, at most maxFilesToRemove, never the head *)
@@ -255,11 +281,28 @@ Definition mon_step (m : mon) (o : xop) (a : xans) (sn : snap) : mon :=
     let v1 := if m_flipped m then V_ok
               else viol_k (m_tainted m) (is_prefix durable allb) 1 in
     let v2 := viol (is_subseq allb written) 2 in
-    let taint := m_tainted m || (negb (status =? 0)%N && torn keep (m_hu m)) in
-    (* after damage by flips the reader stops early: keep everything that may still be on disk *)
-    let hs' := if m_flipped m then m_hs m ++ m_hu m ++ d0s
-               else skipn (List.length (concat (m_segs m))) allb in
-    add_verd (set_flags (set_j m (m_segs m) hs' []) (m_flipped m) taint)
+    let is_torn := torn keep (m_hu m) in
+    let taint := m_tainted m || (negb (status =? 0)%N && is_torn) in
+    (* the head after the crash: its synced records, the unsynced ones that survived whole, a
+       partial record behind them when the cut fell inside a frame *)
+    let on_disk := m_hs m ++ kept_of (Z.max 0 keep) (m_hu m) in
+    let hp_crash := match m_hpart m with
+                    | Some k => Some k
+                    | None => if is_torn then Some (List.length on_disk) else None
+                    end in
+    (* repairWalFile keeps the records in front of the first partial record *)
+    let head_journal :=
+      (if repaired then match hp_crash with Some k => firstn k on_disk | None => on_disk end
+       else on_disk) ++ d0s in
+    let hs' :=
+      (* after damage by flips the reader stops early: keep everything that may still be on disk *)
+      if m_flipped m then m_hs m ++ m_hu m ++ d0s
+      (* clean end: the reader has seen the whole log *)
+      else if (t =? 0)%N then skipn (List.length (concat (m_segs m))) allb
+      (* stopped at a corrupt place: it says nothing about what lies behind *)
+      else head_journal in
+    add_verd (set_hpart (set_flags (set_j m (m_segs m) hs' []) (m_flipped m) taint)
+                        (if repaired then None else hp_crash))
              [v1; v2; viol (files_kept prev sn false) 4] sn
   | XFlip _ _ _, _ => add_verd (set_flags m true (m_tainted m)) [] sn
   | XSearch h ig, XSearched res after t =>
@@ -318,7 +361,8 @@ Definition check (c : case) : verdict :=
   match c with
   | CWal hl tl ops answers snaps ffiles fhead =>
     let tab := tags_of ops in
-    let m := mon_run tab {| m_segs := []; m_hs := []; m_hu := []; m_flipped := false;
+    let m := mon_run tab {| m_segs := []; m_hs := []; m_hu := []; m_hpart := None;
+                            m_flipped := false;
                             m_tainted := false; m_prev := snap0; m_verd := [] |}
                      ops answers snaps in
     let '(s, mans, msnaps) := mrun (lookup tab) (init hl tl) (map mop ops) in
